@@ -160,7 +160,7 @@ fn enc(e: &Enc) -> Option<Vec<u8>> {
     // address-size prefix
     if let Some((Op::Mem { asz, .. }, _)) = e.rm {
         if *asz != e.mode.word() {
-            if m64 && *asz == 32 { out.push(0x67); } else { return None; }
+            if (m64 && *asz == 32) || (!m64 && *asz == 16) { out.push(0x67); } else { return None; }
         }
     }
     out.extend_from_slice(e.pre);
@@ -179,6 +179,34 @@ fn enc(e: &Enc) -> Option<Vec<u8>> {
             Op::Reg(n) => { chk(*n, isbyte)?; if *n >= 8 { rex |= 1; } modrm = Some(0xC0 | (rb << 3) | (n & 7)); }
             Op::RegH(n) => { high = true; modrm = Some(0xC0 | (rb << 3) | (4 + n)); }
             Op::Imm(_) => return None,
+            Op::Mem { base, index, disp, asz: 16, .. } => {
+                // 16-bit addressing (32-bit mode with 0x67): bx/bp + si/di + disp
+                let rmv: u8 = match (base, index) {
+                    (Some(3), Some((6, 1))) => 0,
+                    (Some(3), Some((7, 1))) => 1,
+                    (Some(5), Some((6, 1))) => 2,
+                    (Some(5), Some((7, 1))) => 3,
+                    (Some(6), None) => 4,
+                    (Some(7), None) => 5,
+                    (Some(5), None) => 6,
+                    (Some(3), None) => 7,
+                    (None, None) => 6,
+                    _ => return None,
+                };
+                if *disp < -32768 || *disp > 65535 { return None; }
+                if base.is_none() {
+                    modrm = Some((rb << 3) | 6);
+                    tail.extend_from_slice(&imm_bytes(*disp as u64, 2));
+                } else if *disp == 0 && rmv != 6 {
+                    modrm = Some((rb << 3) | rmv);
+                } else if *disp >= -128 && *disp <= 127 {
+                    modrm = Some(0x40 | (rb << 3) | rmv);
+                    tail.push(*disp as u8);
+                } else {
+                    modrm = Some(0x80 | (rb << 3) | rmv);
+                    tail.extend_from_slice(&imm_bytes(*disp as u64, 2));
+                }
+            }
             Op::Mem { base, index, disp, rip, .. } => {
                 if let Some(b) = base { chk(*b, false)?; }
                 if let Some((i, _)) = index { chk(*i, false)?; if *i == 4 { return None; } }
@@ -537,7 +565,7 @@ impl G {
                     Enc { mode: m, opsz: sz, def64: false, pre: &[], opc: &[0x0F, 0xB0 + w], reg: Some(G::regf(&d, sz)), rm: Some((&mm, false)), plusr: None, imm: vec![] }, 0);
                 if sz > 8 {
                     // lea r, [r + r*s + d] ; imul r, [r] ; cmov r, [r] ; movzx/movsx r, byte/word [r] ; bsf r, [r]
-                    self.add("lea", "lea", sz, format!("(ILea {} {} {})", sz, r, mm.coq()), format!("lea {}, {}", regname(r, sz), mm.text(0)), vec![Op::Reg(r)],
+                    self.add("lea", "lea", sz, format!("(ILea {} {} {})", sz, r, mm.coq()), format!("lea {}, {}", regname(r, sz), mm.text(0)), vec![Op::Reg(r), mm.clone()],
                         Enc { mode: m, opsz: sz, def64: false, pre: &[], opc: &[0x8D], reg: Some(RegF::R(r, false)), rm: Some((&mm, false)), plusr: None, imm: vec![] }, 0);
                     self.add("mul", "imul", sz, format!("(IImul2 {} {} {})", sz, r, mm.coq()), format!("imul {}, {}", regname(r, sz), mm.text(sz)), vec![Op::Reg(r), mm.clone()],
                         Enc { mode: m, opsz: sz, def64: false, pre: &[], opc: &[0x0F, 0xAF], reg: Some(RegF::R(r, false)), rm: Some((&mm, false)), plusr: None, imm: vec![] }, 0);
@@ -609,6 +637,48 @@ impl G {
                 let v = (raw8 as u8 as i8 as i64 as u64) & mask(sz);
                 self.add("mul", "imul", sz, format!("(IImul3 {} {} {} {})", sz, r, d.coq(), v), format!("imul {}, {}, 0x{:x}", regname(r, sz), d.text(sz), v), vec![d.clone(), d.clone()],
                     Enc { mode: m, opsz: sz, def64: false, pre: &[], opc: &[0x6B], reg: Some(RegF::R(r, false)), rm: Some((&d, false)), plusr: None, imm: imm_bytes(raw8, 1) }, 0);
+            }
+        }
+    }
+    /// address-size prefixed memory operands (amd64: 32-bit addressing; x86: 16-bit addressing) with base, index and
+    /// displacement, for lea and for loads/stores; visited with priority like the aliasing forms
+    fn addr_size(&mut self) {
+        let m = self.mode;
+        let mut shapes: Vec<Op> = vec![];
+        if m == Mode::M64 {
+            for _ in 0..3 {
+                let (b, i) = (self.gp_nosp(), self.gp_nosp());
+                let sc = *self.r.pick(&[1u8, 2, 4, 8]);
+                let d32 = (self.r.below(0x6000) as i64) - 0x3000;
+                shapes.push(Op::Mem { base: Some(b), index: Some((i, sc)), disp: d32, asz: 32, rip: false });
+                shapes.push(Op::Mem { base: Some(b), index: Some((i, 1)), disp: 0, asz: 32, rip: false });
+                shapes.push(Op::Mem { base: Some(b), index: None, disp: (self.r.below(200) as i64) - 100, asz: 32, rip: false });
+                shapes.push(Op::Mem { base: Some(b), index: Some((b, sc)), disp: d32, asz: 32, rip: false });
+            }
+        } else {
+            for (b, i) in [(Some(3u8), Some((6u8, 1u8))), (Some(3), Some((7, 1))), (Some(5), Some((6, 1))), (Some(5), Some((7, 1))), (Some(6), None), (Some(7), None), (Some(5), None), (Some(3), None)] {
+                for d in [0i64, (self.r.below(200) as i64) - 100, (self.r.below(0x8000) as i64) + 0x100, 0xfff0] {
+                    shapes.push(Op::Mem { base: b, index: i, disp: d, asz: 16, rip: false });
+                }
+            }
+        }
+        for mm in shapes {
+            for sz in self.wsizes() {
+                let d = self.gp();
+                self.add("lea", "lea", sz, format!("(ILea {} {} {})", sz, d, mm.coq()), format!("lea {}, {}", regname(d, sz), mm.text(0)), vec![Op::Reg(d), mm.clone()],
+                    Enc { mode: m, opsz: sz, def64: false, pre: &[], opc: &[0x8D], reg: Some(RegF::R(d, false)), rm: Some((&mm, false)), plusr: None, imm: vec![] }, 0);
+            }
+            if m == Mode::M64 {
+                // loads and stores through the prefixed operand (the wrapped address must be mapped: amd64 only)
+                let sz = *self.r.pick(&[8u8, 16, 32, 64]);
+                let w = if sz == 8 { 0 } else { 1 };
+                let r = self.rop(sz, false);
+                self.add("mov", "mov", sz, format!("(IMov {} {} {})", sz, r.coq(), mm.coq()), format!("mov {}, {}", r.text(sz), mm.text(sz)), vec![r.clone(), mm.clone()],
+                    Enc { mode: m, opsz: sz, def64: false, pre: &[], opc: &[0x8A + w], reg: Some(G::regf(&r, sz)), rm: Some((&mm, false)), plusr: None, imm: vec![] }, 0);
+                self.add("mov", "mov", sz, format!("(IMov {} {} {})", sz, mm.coq(), r.coq()), format!("mov {}, {}", mm.text(sz), r.text(sz)), vec![mm.clone(), r.clone()],
+                    Enc { mode: m, opsz: sz, def64: false, pre: &[], opc: &[0x88 + w], reg: Some(G::regf(&r, sz)), rm: Some((&mm, false)), plusr: None, imm: vec![] }, 0);
+                self.add("alu", "add", sz, format!("(IAlu AAdd {} {} {})", sz, mm.coq(), r.coq()), format!("add {}, {}", mm.text(sz), r.text(sz)), vec![mm.clone(), r.clone()],
+                    Enc { mode: m, opsz: sz, def64: false, pre: &[], opc: &[w], reg: Some(G::regf(&r, sz)), rm: Some((&mm, false)), plusr: None, imm: vec![] }, 0);
             }
         }
     }
@@ -687,7 +757,7 @@ impl G {
             for k in 0..8 {
                 let mm = self.mem(k);
                 let d = self.gp();
-                self.add("lea", "lea", sz, format!("(ILea {} {} {})", sz, d, mm.coq()), format!("lea {}, {}", regname(d, sz), mm.text(0)), vec![Op::Reg(d)],
+                self.add("lea", "lea", sz, format!("(ILea {} {} {})", sz, d, mm.coq()), format!("lea {}, {}", regname(d, sz), mm.text(0)), vec![Op::Reg(d), mm.clone()],
                     Enc { mode: m, opsz: sz, def64: false, pre: &[], opc: &[0x8D], reg: Some(RegF::R(d, false)), rm: Some((&mm, false)), plusr: None, imm: vec![] }, 0);
             }
         }
@@ -1000,6 +1070,7 @@ fn all_forms(mode: Mode, seed: u64) -> Vec<Form> {
     g.nospec();
     g.in_alias = true;
     g.aliasing();
+    g.addr_size();
     g.forms
 }
 
@@ -1064,7 +1135,7 @@ fn code_target(r: &mut Rng) -> u64 {
         _ => CODE_AT + 0x40 + r.below(0x40),
     }
 }
-fn sample(f: &Form, r: &mut Rng) -> Sample {
+fn sample(f: &Form, r: &mut Rng, k: usize) -> Sample {
     let m64 = f.mode == Mode::M64;
     let wmask = mask(f.mode.word());
     let mut s = Sample { g: [0; 16], x: [0; 16], rfl: 0, seed: r.below(0x10000), over: vec![], ranges: vec![] };
@@ -1107,40 +1178,72 @@ fn sample(f: &Form, r: &mut Rng) -> Sample {
         _ => {}
     }
     if !m64 { for i in 0..16 { s.g[i] = if i < 8 { s.g[i] & wmask } else { 0 }; } }
-    // ---- addressing fix-up
+    // ---- addressing fix-up.  Scenario by sample number k:
+    //   k % 3 == 0  plain: small index, base solved so that the address lands in a scratch region
+    //   k % 3 == 1  WRAP: the index (or, without index, nothing) gets bit (asz-1) set / is near the maximum, the base is
+    //               solved modulo 2^asz, so base + index*scale + disp exceeds 2^asz and wraps into the scratch region
+    //   k % 3 == 2  as 1 with boundary-pool index values; with an address-size prefix both registers also carry garbage
+    //               above the address width
+    //   lea (no memory access): the SUM is chosen instead: k % 6 = 1 wraps by a small amount, 2 lands on 2^asz - 1,
+    //               3 on 2^(asz-1), 4 plain, 0/5 whatever the random registers give
+    let narrow_garbage = |v: u64, asz: u8, r: &mut Rng| -> u64 { if m64 && asz == 32 && r.chance(2, 3) { (v & mask(32)) | (r.next() << 32) } else { v } };
     let mut eas: Vec<(u64, u8)> = vec![];
     for o in &f.ops {
         if let Op::Mem { base, index, disp, asz, rip } = o {
+            let am = mask(*asz);
+            let is_lea = f.class == "lea";
             let region = if m64 && *asz == 64 && !*rip && base.is_some() && r.chance(1, 3) { HIGH } else { LOW };
             let mut target = region + 0x1000 + r.below(0xE000);
             if f.sse && f.sz == 128 && !r.chance(1, 8) { target &= !15; }
-            let am = mask(*asz);
-            match (base, index) {
-                (Some(b), idx) if *b != 4 => {
-                    match idx {
-                        Some((i, sc)) if i == b => {
-                            let k = (target.wrapping_sub(*disp as u64) & am) / (1 + *sc as u64);
-                            s.g[*b as usize] = k;
-                        }
-                        _ => {
-                            let mut iv = 0u64;
-                            if let Some((i, sc)) = idx {
-                                if *i != 4 {
-                                    let v = if r.chance(1, 4) { bval(r) } else { r.below(9) };
-                                    s.g[*i as usize] = if m64 { v } else { v & wmask };
-                                }
-                                iv = s.g[*i as usize].wrapping_mul(*sc as u64);
+            let mut solve = true;
+            if is_lea {
+                match k % 6 {
+                    1 => target = r.below(0x1000),
+                    2 => target = am,
+                    3 => target = (am >> 1) + 1,
+                    4 => {}
+                    _ => solve = false,
+                }
+                target &= am;
+            }
+            let scen = k % 3;
+            if solve {
+                match (base, index) {
+                    (Some(b), idx) if *b != 4 => {
+                        match idx {
+                            Some((i, sc)) if i == b => {
+                                // reg * (1 + scale) + disp = target (+ m * 2^asz when wrapping)
+                                let f1 = 1 + *sc as u128;
+                                let mut want = (target.wrapping_sub(*disp as u64) & am) as u128;
+                                if scen != 0 { want += (1u128 << *asz) * (1 + r.below(*sc as u64) as u128); }
+                                let kq = (want / f1) as u64;
+                                s.g[*b as usize] = narrow_garbage(kq & am, *asz, r);
                             }
-                            let mut bv = target.wrapping_sub(*disp as u64).wrapping_sub(iv) & am;
-                            if m64 && *asz == 32 && r.chance(1, 2) { bv |= r.next() << 32; }
-                            s.g[*b as usize] = bv;
+                            _ => {
+                                let mut iv = 0u64;
+                                if let Some((i, sc)) = idx {
+                                    if *i != 4 {
+                                        let v = match scen {
+                                            0 => r.below(9),
+                                            1 => if r.chance(1, 2) { (1u64 << (*asz - 1)) | r.below(1 << 16) } else { am - r.below(64) },
+                                            _ => bval(r),
+                                        };
+                                        let v = if scen == 0 { v } else { narrow_garbage(v, *asz, r) };
+                                        s.g[*i as usize] = if m64 { v } else { v & wmask };
+                                    }
+                                    iv = s.g[*i as usize].wrapping_mul(*sc as u64);
+                                }
+                                let bv = target.wrapping_sub(*disp as u64).wrapping_sub(iv) & am;
+                                s.g[*b as usize] = narrow_garbage(bv, *asz, r);
+                            }
                         }
                     }
+                    (None, Some((i, _))) => { s.g[*i as usize] = r.below(9); }
+                    _ => {}
                 }
-                (None, Some((i, _))) => { s.g[*i as usize] = r.below(9); }
-                _ => {}
             }
-            eas.push((o.ea(&s.g), if f.class == "lea" { 0 } else { 1 }));
+            if !m64 { for q in 0..16 { s.g[q] = if q < 8 { s.g[q] & wmask } else { 0 }; } }
+            eas.push((o.ea(&s.g), if is_lea { 0 } else { 1 }));
         }
     }
     // ---- memory overrides and remaining hints that need the effective address
@@ -1375,14 +1478,14 @@ fn main() {
     let mut perm: Vec<usize> = (0..nforms).collect();
     let mut pr = Rng::for_case(args.seed, 0x7fff_fff0);
     for i in (1..nforms).rev() { let j = pr.below(i as u64 + 1) as usize; perm.swap(i, j); }
-    // operand-aliasing forms are visited first, interleaved 1 : 3 with the rest, so that the quick tier reaches all of them
+    // operand-aliasing forms are visited first, interleaved 1 : 2 with the rest, so that the quick tier reaches all of them
     {
         let (al, rest): (Vec<usize>, Vec<usize>) = perm.iter().partition(|k| forms[**k].alias);
         let (mut ia, mut ir) = (0, 0);
         let mut out = Vec::with_capacity(nforms);
         while ia < al.len() || ir < rest.len() {
             if ia < al.len() { out.push(al[ia]); ia += 1; }
-            for _ in 0..3 { if ir < rest.len() { out.push(rest[ir]); ir += 1; } }
+            for _ in 0..2 { if ir < rest.len() { out.push(rest[ir]); ir += 1; } }
         }
         perm = out;
     }
@@ -1397,7 +1500,7 @@ fn main() {
         let mut samples: Vec<Sample> = vec![];
         let mut tags: Vec<String> = vec![];
         for k in 0..nsamples * 2 {
-            let s = sample(&f, &mut r);
+            let s = sample(&f, &mut r, k);
             let t = kf_tags(&f, &s);
             if k == 0 { tags = t.clone(); }
             if t == tags && samples.len() < nsamples { samples.push(s); }
